@@ -13,7 +13,10 @@
 (* members and keys, arrays equal in data but different in dtype / shape,    *)
 (* Series / DataFrames equal in data but different in index, order, name,    *)
 (* columns; equal arrays in different memory layouts and a vs a.T; equal     *)
-(* frozenset members / keys materialised with different iteration order.     *)
+(* frozenset members / keys materialised with different iteration order;      *)
+(* pandas objects equal in cells whose row / column labels are carried by a   *)
+(* RangeIndex with another start / step (slices of a bigger frame), and the   *)
+(* same labels carried by a RangeIndex and by a materialised Index.           *)
 (* Everything is stated as set expressions below; nothing is sampled.        *)
 (*                                                                         *)
 (* One state per universe member (`case` = its index in U); all ordered      *)
@@ -110,10 +113,30 @@ FlipFamily(X, y) ==
 Flips == FlipFamily({FrozenSet(<<I0, I8>>), FrozenSet(<<I8, I0>>)}, FrozenSet(<<I1>>))
          \cup FlipFamily({FrozenSet(<<Sa, Sb>>), FrozenSet(<<Sb, Sa>>)}, FrozenSet(<<Sab>>))
 
+(* encoder attribute 3: label representation of pandas objects (HashKey!DataFrameR).  Row labels of two rows:  *)
+(* [0, 1] the default RangeIndex(0, 2) = big.iloc[0:2];  [1, 2] = big.iloc[1:3], a slice with another START;    *)
+(* [0, 2] = big.iloc[0:4:2], another STEP;  [1, 0] = big.iloc[1::-1], a negative step.  Each with the SAME cell  *)
+(* values (cells that repeat in the big frame), carried by a RangeIndex (rep 1) and by a materialised Index       *)
+(* (rep 0): the two representations of one label sequence are Eq, different label sequences are not.  Likewise    *)
+(* one row / no row, two columns, Series, and integer COLUMN labels carried by a RangeIndex (pd.DataFrame(ndarray)).*)
+RangeLabels2 == {<<I0, I1>>, <<I1, I2>>, <<I0, I2>>, <<I1, I0>>}
+RangeLabels1 == {<<I0>>, <<I1>>}
+RangeCells2  == {<<I1, I2>>, <<I1, I1>>}
+D1Range ==
+    {DataFrameR(<<Str("A")>>, ix, <<Col(d)>>, r) : ix \in RangeLabels2, d \in RangeCells2, r \in 0..1}
+    \cup {DataFrameR(<<Str("A")>>, ix, <<Col(<<x>>)>>, r) : ix \in RangeLabels1, x \in {I1, I2}, r \in 0..1}
+    \cup {DataFrameR(<<Str("A")>>, <<>>, <<Col(<<>>)>>, 1)}
+    \cup {DataFrameR(<<Str("A"), Str("B")>>, ix, <<Col(<<I1, I2>>), Col(<<I2, I1>>)>>, r) : ix \in RangeLabels2, r \in 0..1}
+    \cup {DataFrameR(cl, <<I0>>, <<Col(<<I1>>), Col(<<I2>>)>>, r) : cl \in {<<I0, I1>>, <<I1, I2>>, <<I1, I0>>}, r \in 0..3}
+    \cup {DataFrameR(<<I0>>, ix, <<Col(<<I1, I2>>)>>, r) : ix \in {<<I0, I1>>, <<I1, I2>>}, r \in 0..3}
+    \cup {SeriesR("s", ix, d, r) : ix \in RangeLabels2, d \in RangeCells2, r \in 0..1}
+    \cup {SeriesR("s", ix, <<I1>>, r) : ix \in RangeLabels1, r \in 0..1}
+    \cup {SeriesR("s", <<>>, <<>>, 1)}
+
 D1Obj == {Obj(c, <<x, y>>) : c \in {"PA", "PB"}, x \in {I1, Sa, F1}, y \in {I1, Sa, F1}}
 
 D1 == D1Seq \cup D1Deque \cup D1Set \cup D1Map \cup D1Bytes \cup D1Arr \cup D1Series \cup D1Frame \cup D1Obj
-      \cup D1Layout \cup Flips
+      \cup D1Layout \cup Flips \cup D1Range
 
 ---------------------------------------------------------------------------
 (* depth 2: members drawn from look-alike containers of depth 1 *)
@@ -141,6 +164,7 @@ D2Obj == {Obj(c, <<x, I1>>) : c \in {"PA", "PB"},
                               x \in {L12, T12, Dab, Dba, SetV(<<Sa, Sb>>), SetV(<<Sb, Sa>>), FrozenSet(<<Sa, Sb>>)}}
 
 PandasPool == {Series("s", <<I0, I1>>, <<I1, I2>>), Series("s", <<I1, I0>>, <<I2, I1>>),
+               DataFrameR(<<Str("A")>>, <<I0, I1>>, <<Col(<<I1, I2>>)>>, 1), DataFrameR(<<Str("A")>>, <<I1, I2>>, <<Col(<<I1, I2>>)>>, 1),
                DataFrame(<<Str("A")>>, <<I0, I1>>, <<Col(<<I1, I2>>)>>), DataFrame(<<Str("A")>>, <<I1, I0>>, <<Col(<<I1, I2>>)>>)}
 D2Misc == {List(<<x>>) : x \in PandasPool} \cup {Tuple(<<x>>) : x \in PandasPool}
           \cup {Dict(<<Pair(Sa, x)>>) : x \in PandasPool}
@@ -155,17 +179,24 @@ U == SetToSeq(Universe)          \* evaluated once; TLC's set order is determini
 N == Len(U)
 KC == [i \in 1..N |-> KeyVal(U[i], AsCoded)]       PC == [i \in 1..N |-> Problems(U[i], AsCoded)]
 KR == [i \in 1..N |-> KeyVal(U[i], Repaired)]      PR == [i \in 1..N |-> Problems(U[i], Repaired)]
+KX == [i \in 1..N |-> KeyVal(U[i], SkipRange)]     \* the variant "None for a RangeIndex" (teeth)
 
 VARIABLES case, out
-Expect(i) == [i      |-> i,
-              v      |-> U[i],
-              eq     |-> {j \in 1..N : Eq(U[i], U[j])},              \* expected pattern (the oracle)
-              dc     |-> {j \in 1..N : DontCare(U[i], U[j])},
-              native |-> ~HasObj(U[i]),                              \* natively handled: same key in every process
-              asis_fs |-> HasAsIsFrozenSet(U[i]),                    \* pickle of the key may follow iteration order
-              mprob  |-> PC[i],                                      \* the scheme as coded: where it is not total ...
-              mkc    |-> IF PC[i] = {} THEN {j \in 1..N : PC[j] = {} /\ KC[j] = KC[i]} ELSE {},   \* ... and its key classes
-              mkr    |-> {j \in 1..N : KR[j] = KR[i]}]                \* key classes of the repaired scheme
+Expect(i) ==
+    LET eq == {j \in 1..N : Eq(U[i], U[j])}                          \* expected pattern (the oracle)
+        dc == {j \in 1..N : DontCare(U[i], U[j])}
+        kx == {j \in 1..N : KX[j] = KX[i]}                           \* key class under the variant "None for a RangeIndex"
+    IN [i      |-> i,
+        v      |-> U[i],
+        eq     |-> eq,
+        dc     |-> dc,
+        native |-> ~HasObj(U[i]),                              \* natively handled: same key in every process
+        asis_fs |-> HasAsIsFrozenSet(U[i]),                    \* pickle of the key may follow iteration order
+        mprob  |-> PC[i],                                      \* the scheme as coded: where it is not total ...
+        mkc    |-> IF PC[i] = {} THEN {j \in 1..N : PC[j] = {} /\ KC[j] = KC[i]} ELSE {},   \* ... and its key classes
+        mkr    |-> {j \in 1..N : KR[j] = KR[i]},               \* key classes of the repaired scheme
+        xcoll  |-> kx \ (eq \cup dc),                          \* where the variant breaks KeySound ...
+        xsplit |-> (eq \ dc) \ kx]                             \* ... and KeyComplete
 Init == /\ case \in {i \in 1..N : i % NShards = Shard}
         /\ out = Expect(case)
 Next == UNCHANGED <<case, out>>
